@@ -527,6 +527,16 @@ func (req *Request) Process(store StorageClient, stat *Stats) (resp *Response, e
 			resp.Status = "NOT_STORED"
 		}
 
+	case "prepend", "decr":
+		if req.Cmd == "decr" {
+			cmem.DBRL.SetData.SubCount(1)
+		} else {
+			cmem.DBRL.SetData.SubSizeAndCount(req.Item.CArray.Cap)
+			req.Item.CArray.Free()
+		}
+		resp.Status = "SERVER_ERROR"
+		resp.Msg = "operation not support"
+
 	case "append":
 		atomic.AddInt64(&stat.cmd_set, 1)
 		stat.bytes_read += int64(len(req.Item.Body))
@@ -534,9 +544,12 @@ func (req *Request) Process(store StorageClient, stat *Stats) (resp *Response, e
 		key := req.Keys[0]
 		var suc bool
 		suc, err = store.Append(key, req.Item.Body)
+		cmem.DBRL.SetData.SubSizeAndCount(req.Item.CArray.Cap)
+		req.Item.CArray.Free()
 		if err != nil {
 			resp.Status = "SERVER_ERROR"
 			resp.Msg = err.Error()
+			err = nil
 			return
 		}
 
@@ -554,6 +567,7 @@ func (req *Request) Process(store StorageClient, stat *Stats) (resp *Response, e
 		key := req.Keys[0]
 		add, err := strconv.Atoi(string(req.Item.Body))
 		if err != nil {
+			cmem.DBRL.SetData.SubCount(1)
 			resp.Status = "CLIENT_ERROR"
 			resp.Msg = "invalid number"
 			break
